@@ -20,7 +20,8 @@ RULE = ("all strings of length <= L over the alphabet (quick L=3 in every positi
         "values; positions: whole snapshot, list element, dict key+value, dataclass field, `in` member, sub-snapshot key+value, "
         "fix of a previous literal; formatter: black, black not importable, format-command (real plugin sessions); "
         "non-trivial = the call gained an argument whose literal_eval equals the original and the re-execution passed; "
-        "distinct = (string, position, formatter)")
+        "distinct = (string, position, formatter)"
+        '; plus all ordered pairs of strings over {\', ", a, backslash} (length <= 3) as fix')
 ASSUMPTIONS = ["the test computes the observed string from Python's own repr() of it",
                "format-command cases run through real pytest sessions because run_inline does not read pyproject.toml"]
 BATCH = 60
